@@ -742,6 +742,21 @@ def run_bulk(rep, jobs, stats):
         return j, C.run([exe] + [str(a) for a in j], timeout=3000)
     with concurrent.futures.ThreadPoolExecutor(C.NCPU) as ex:
         results = list(ex.map(one, jobs))
+    found = {}       # (single?, kind, class) -> [count, smallest example, examples]
+    # distinct single patterns covered: union of the [lo,hi) slices
+    iv = sorted((int(j[1]), int(j[2])) for j in jobs if j[0] == "bulkS")
+    cur_lo, cur_hi, uni = None, None, 0
+    for lo, hi in iv:
+        if cur_hi is None or lo > cur_hi:
+            if cur_hi is not None:
+                uni += cur_hi - cur_lo
+            cur_lo, cur_hi = lo, hi
+        else:
+            cur_hi = max(cur_hi, hi)
+    if cur_hi is not None:
+        uni += cur_hi - cur_lo
+    stats["bulk_distinct_singles"] = stats.get("bulk_distinct_singles", 0) + uni
+    stats["bulk_sampled_doubles"] = stats.get("bulk_sampled_doubles", 0) + sum(int(j[2]) for j in jobs if j[0] == "bulkD")
     for j, (rc, out, err) in results:
         st = parse_bulk(out)
         if rc != 0 or "n" not in st:
@@ -759,22 +774,56 @@ def run_bulk(rep, jobs, stats):
                 cnt = cnt - st.get("fail_weak", (0, []))[0]
             if cnt <= 0 or not exs:
                 continue
-            b = int(exs[0], 16)
-            s, e, f = sfields(b) if single else dfields(b)
-            cls = ieee_class(e, f, 255 if single else 2047)
-            op = ("srt " if single else "drt ") + exs[0] if kind in ("roundtrip", "nan-payload") else \
-                 (("sda " if single else "dda ") + exs[0])
-            if kind == "nan-payload":
-                # property only demands NaN stays NaN: the implementation is within the
-                # property but no longer what the model (bit-exact) describes
-                rep.violation("correspondence xfloat no longer checks: %s %s (%d patterns)" % (what, exs[0], cnt),
-                              {"kind": kind, "op": op, "examples": exs, "count": cnt}, no_input=True)
-            else:
-                rep.violation("%s %s %s %s (%d patterns in this slice, e.g. %s)" % (
-                    "single" if single else "double", cls, what, exs[0], cnt, " ".join(exs)),
-                    {"kind": kind, "op": op, "bits": exs[0], "class": cls, "examples": exs, "count": cnt},
-                    key="C19/%s/%s/%s" % ("single" if single else "double", kind, cls))
+            for x in exs:
+                b = int(x, 16)
+                s_, e, f = sfields(b) if single else dfields(b)
+                cls = ieee_class(e, f, 255 if single else 2047)
+                ent = found.setdefault((single, kind, cls), [0, x, []])
+                if int(x, 16) % (1 << (31 if single else 63)) < int(ent[1], 16) % (1 << (31 if single else 63)):
+                    ent[1] = x
+                if len(ent[2]) < 8:
+                    ent[2].append(x)
+            found[(single, kind, ieee_class(*((sfields if single else dfields)(int(exs[0], 16))[1:]),
+                                             255 if single else 2047))][0] += cnt
+    for (single, kind, cls), (cnt, x, exs) in sorted(found.items(), key=lambda kv: (not kv[0][0], kv[0][1], kv[0][2])):
+        what = [w for k_, (kd, w) in FAIL_WHAT.items() if kd == kind][0]
+        prec = "single" if single else "double"
+        if kind in ("roundtrip", "nan-payload"):
+            op = ("srt " if single else "drt ") + x
+        elif kind == "dissemble-assemble":
+            op = ("sda " if single else "dda ") + x
+        elif kind == "fi-dissemble-assemble":
+            op = ("fsr " + x + " 0123456789abcdef") if single else ("fdr " + x)
+        else:
+            op = ("scl " if single else "dcl ") + x
+        if kind == "nan-payload":
+            # the property only demands that a NaN stays a NaN: the implementation is within the
+            # property but no longer what the (bit-exact) model describes
+            rep.violation("correspondence xfloat no longer checks: %s %s (>= %d patterns)" % (what, x, cnt),
+                          {"kind": kind, "op": op, "examples": exs, "count": cnt}, no_input=True)
+        else:
+            rep.violation("%s %s %s %s (>= %d patterns; e.g. %s)" % (prec, cls, what, x, cnt, " ".join(exs[:4])),
+                          {"kind": kind, "op": op, "bits": x, "class": cls, "examples": exs, "count": cnt},
+                          key="C19/%s/%s/%s" % (prec, kind, cls))
     return total
+
+
+def run_bulk_bf(rep, tier, stats):
+    """util.c bit-field helpers against integer arithmetic, on the C side."""
+    exe = harness()
+    n = 20000 if tier == "quick" else 400000
+    rc, out, err = C.run([exe, "bulkBF", str(C.rng("C19/bf").getrandbits(63)), str(n)], timeout=1200)
+    m = re.search(r"bulkBF n=(\d+) fail=(\d+) first=(.*)", out)
+    if rc != 0 or not m:
+        rep.violation("bit-field oracle failed rc=%d" % rc, {"stderr": err[-300:]}, no_input=True)
+        return 0
+    stats["bitfield_calls_checked"] = int(m.group(1))
+    if int(m.group(2)):
+        op = m.group(3).strip()
+        rep.violation("correspondence xfloat no longer checks: util.c `%s` differs from the integer shift / leading-one "
+                      "position the model uses (%s failing calls)" % (op, m.group(2)),
+                      {"kind": "correspondence", "op": op, "count": int(m.group(2))}, no_input=True)
+    return int(m.group(1))
 
 
 def bulk_jobs(tier, rng):
@@ -910,6 +959,7 @@ def correspondence(rep, tier, stats):
     couts = run_parallel(cexe, ["ops"], ops)
     # ---- direct oracle on every implementation result
     nviol = 0
+    reported = set()
     seen_kinds = set()
     evaluations = 0
     for op, out in zip(ops, couts):
@@ -918,6 +968,7 @@ def correspondence(rep, tier, stats):
             evaluations += 1
         if r and r[0] not in seen_kinds:
             seen_kinds.add(r[0])
+            reported.add((r[0], op))
             nviol += 1
             if r[0] == "nan-payload":
                 rep.violation("correspondence xfloat no longer checks: " + r[1], {"kind": r[0], "op": op, "c": out},
@@ -949,6 +1000,16 @@ def correspondence(rep, tier, stats):
                                (" 0123456789abcdef" if p.startswith("fsa") else ""), "asm": p},
                               key="C19/op/" + kind)
     stats["oracle_evaluations"] = evaluations
+    dist = set()
+    for op in ops:
+        t = op.split()
+        if t[0] in ("srt", "drt", "sdis", "ddis", "scl", "dcl", "fsd", "fdd") and len(t) >= 2:
+            try:
+                if int(t[1], 16) & ((1 << (31 if len(t[1]) <= 8 else 63)) - 1):
+                    dist.add((len(t[1]) <= 8, t[1]))
+            except ValueError:
+                pass
+    stats["distinct_op_patterns"] = len(dist)
     # ---- model versus implementation
     mexe = model_driver()
     if mexe is None:
@@ -972,11 +1033,17 @@ def correspondence(rep, tier, stats):
                 continue
             done.add(k)
             small = shrink(o, differs)
-            _, sc, _ = run_ops(cexe, ["ops"], [small])
-            _, sm, _ = run_ops(mexe, [], [small])
+            sc = (run_ops(cexe, ["ops"], [small])[1] or ["?"])[0]
+            sm = (run_ops(mexe, [], [small])[1] or ["?"])[0]
             # searcher: does the implementation violate the property on this input?
             pv = c_property_check(small, cexe, consts)
-            os.makedirs(cdir, exist_ok=True)
+            if "VERIF_REPO" not in os.environ:      # minimised failure joins the corpus (real tree only)
+                os.makedirs(cdir, exist_ok=True)
+                import hashlib
+                with open(os.path.join(cdir, "found-%s.ops" % hashlib.sha1(small.encode()).hexdigest()[:8]), "w") as fp:
+                    fp.write("# model/implementation difference found %s\n%s\n" % (time.strftime("%Y-%m-%d"), small))
+            if pv and pv[0] != "nan-payload" and (pv[0], pv[2]) in reported:
+                continue                     # the direct oracle already reported exactly this input
             if pv and pv[0] != "nan-payload":
                 rep.violation("%s (found from model/implementation difference on `%s`)" % (pv[1], small),
                               {"kind": pv[0], "op": pv[2], "model": sm, "c": sc, "from": o},
@@ -990,17 +1057,43 @@ def correspondence(rep, tier, stats):
     return ops, couts, len(allops)
 
 
+E2E_DOUBLES = ["4.9e-324", "5.0e-324", "3.0e-320", "1.0e-310", "2.225073858507201e-308", "2.2250738585072014e-308",
+               "0.1", "1.0e23", "123456.789e3", "9007199254740993.0", "1.7976931348623157e308", "8.98846567431158e307"]
+E2E_SINGLES = ["1.0e-45", "7.1e-46", "1.1754942e-38", "1.17549435e-38", "0.1", "16777217.0", "3.4028234e38"]
+
+
+def fm_consts(text):
+    """(DFlo x) / (SFlo x) constants of a FOAM s-expression dump, as bit patterns, in order."""
+    out = []
+    for kind, num in re.findall(r"\((DFlo|SFlo)\s+([-+0-9.eEsS]+)\)", text):
+        try:
+            v = float(num.replace("s", "e").replace("S", "e"))
+        except ValueError:
+            out.append((kind, num))
+            continue
+        if kind == "DFlo":
+            out.append((kind, struct.pack(">d", v).hex()))
+        else:
+            try:
+                out.append((kind, struct.pack(">f", v).hex()))
+            except OverflowError:
+                out.append((kind, num))
+    return out
+
+
 def e2e_constants(rep, tier, stats):
-    """Programs with extreme constants through the real compiler: folded (-Q2) versus
-    unfolded (-Q0) conversion of the same literals, run in the interpreter."""
-    if tier != "thorough":
-        return
-    lits = ["4.9e-324", "1.7976931348623157e308", "2.2250738585072014e-308", "2.225073858507201e-308", "0.1",
-            "1.0e-310", "123456.789e3", "9007199254740993.0", "1.0e23"]
-    src = ['#include "aldor"', '#include "aldorio"', "import from DoubleFloat;"]
-    for i, l in enumerate(lits):
+    """Extreme constants through the real compiler built from the current tree:
+    literal text -> folder -> FOAM constant -> .ao (bufWrDFloat/bufWrSFloat = xxFrNative)
+    -> reload (bufRdDFloat/bufRdSFloat = xxToNative) -> FOAM dump.  The constants dumped
+    from the reloaded .ao must be the ones dumped before it was written, and must be the
+    correctly rounded values of the literals."""
+    src = ['#include "aldor"', '#include "aldorio"', "import from DoubleFloat;", "import from SingleFloat;"]
+    for i, l in enumerate(E2E_DOUBLES):
         src.append("x%d: DoubleFloat := %s;" % (i, l))
         src.append("stdout << x%d << newline;" % i)
+    for i, l in enumerate(E2E_SINGLES):
+        src.append("y%d: SingleFloat := %s;" % (i, l))
+        src.append("stdout << y%d << newline;" % i)
     try:
         exe = C.build_compiler()
     except C.BuildError as e:
@@ -1008,23 +1101,39 @@ def e2e_constants(rep, tier, stats):
         return
     d = C.scratch("c19e2e")
     open(d + "/p.as", "w").write("\n".join(src) + "\n")
-    outs = {}
-    for q in ("-Q0", "-Q2"):
-        rc, out, err = C.run(C.aldor_base_args(exe) + [q, "-ginterp", "p.as"], cwd=d, env=C.aldor_env(), timeout=300)
-        outs[q] = (rc, out)
-    stats["e2e_programs"] = 2
-    if outs["-Q0"][0] != 0 or outs["-Q2"][0] != 0:
-        rep.notes.append("e2e: interpreter run failed rc=%s/%s (not counted)" % (outs["-Q0"][0], outs["-Q2"][0]))
+    base = C.aldor_base_args(exe)
+    rc1, out1, err1 = C.run(base + ["-Q2", "-Fao=p.ao", "-Ffm=p1.fm", "p.as"], cwd=d, env=C.aldor_env(), timeout=300)
+    if rc1 != 0 or not os.path.exists(d + "/p.ao") or not os.path.exists(d + "/p1.fm"):
+        rep.notes.append("e2e: compile to .ao failed rc=%d: %s (not counted)" % (rc1, (out1 + err1)[-300:]))
         return
-    a, b = outs["-Q0"][1].split("\n"), outs["-Q2"][1].split("\n")
-    stats["e2e_lines_compared"] = min(len(a), len(b))
-    for i, (x, y) in enumerate(zip(a, b)):
-        if x != y:
-            rep.violation("constant %s prints %r at -Q0 (run-time conversion) and %r at -Q2 (folded)" % (
-                lits[i] if i < len(lits) else "?", x, y),
-                {"kind": "e2e", "literal": lits[i] if i < len(lits) else None, "q0": x, "q2": y, "source": src},
-                key="C19/e2e/%d" % i)
-            break
+    rc2, out2, err2 = C.run(base + ["-Ffm=p2.fm", "p.ao"], cwd=d, env=C.aldor_env(), timeout=300)
+    if rc2 != 0 or not os.path.exists(d + "/p2.fm"):
+        rep.notes.append("e2e: reload of .ao failed rc=%d: %s (not counted)" % (rc2, (out2 + err2)[-300:]))
+        return
+    c1 = fm_consts(open(d + "/p1.fm").read())
+    c2 = fm_consts(open(d + "/p2.fm").read())
+    stats["e2e_constants_compared"] = len(c2)
+    if c1 != c2:
+        i = next((k for k, (x, y) in enumerate(zip(c1, c2)) if x != y), min(len(c1), len(c2)))
+        rep.violation("float constant #%d of the test program is %s in memory and %s after writing and reloading the .ao" % (
+            i, c1[i] if i < len(c1) else None, c2[i] if i < len(c2) else None),
+            {"kind": "e2e", "before": c1[i] if i < len(c1) else None, "after": c2[i] if i < len(c2) else None,
+             "source": src, "cmd": "aldor -Q2 -Fao=p.ao -Ffm=p1.fm p.as ; aldor -Ffm=p2.fm p.ao"},
+            key="C19/e2e/ao-reload")
+        return
+    have_d = {v for k, v in c2 if k == "DFlo"}
+    have_s = {v for k, v in c2 if k == "SFlo"}
+    miss = []
+    for l in E2E_DOUBLES:
+        if struct.pack(">d", float(l)).hex() not in have_d:
+            miss.append(("DoubleFloat", l, struct.pack(">d", float(l)).hex()))
+    for l in E2E_SINGLES:
+        if struct.pack(">f", float(l)).hex() not in have_s:
+            miss.append(("SingleFloat", l, struct.pack(">f", float(l)).hex()))
+    stats["e2e_literals_found"] = len(E2E_DOUBLES) + len(E2E_SINGLES) - len(miss)
+    if miss:
+        # not a C19 violation by itself (the folder may not have folded it): record
+        rep.notes.append("e2e: constants not found with their correctly rounded bits in the reloaded .ao: %s" % miss[:5])
 
 
 # ------------------------------------------------------------------ entry points
@@ -1033,6 +1142,18 @@ def searcher(rep, log, stats):
     """Called when a proof obligation (or the regenerated parameter file) no longer
     checks: look for a concrete input on which the property fails on the implementation."""
     before = len(rep.violations) + len(rep.known)
+    # name the lemma whose proof broke (file:line of the first coqc error)
+    m = re.search(r'File "\./([^"]+)", line (\d+)', log or "")
+    if m:
+        try:
+            src = open(os.path.join(C.COQ, m.group(1))).read().split("\n")[:int(m.group(2))]
+            names = [re.match(r"\s*(?:Lemma|Theorem|Example|Definition)\s+([\w']+)", l) for l in src]
+            names = [x.group(1) for x in names if x]
+            if names:
+                rep.notes.append("proof stage failed in %s at line %s, inside `%s`" % (m.group(1), m.group(2), names[-1]))
+                stats["failing_lemma"] = names[-1]
+        except OSError:
+            pass
     try:
         run_bulk(rep, bulk_jobs("quick", C.rng("C19/search")), stats)
         if len(rep.violations) + len(rep.known) == before:
@@ -1068,17 +1189,19 @@ def run(rep, tier):
     if not stats.get("searcher_ran"):
         ops, couts, ncmp = correspondence(rep, tier, stats)
         nb = run_bulk(rep, bulk_jobs(tier, C.rng("C19/bulk")), stats)
+        run_bulk_bf(rep, tier, stats)
         check_literals(rep, tier, stats)
         e2e_constants(rep, tier, stats)
     t3 = time.time()
     # 4. evidence
     rep.add_cov(
         evaluations=stats.get("oracle_evaluations", 0) + nb + stats.get("literals", 0),
-        distinct_nontrivial=nb - stats.get("bulk_zero", 0) + stats.get("oracle_evaluations", 0),
+        distinct_nontrivial=stats.get("distinct_op_patterns", 0) + stats.get("bulk_distinct_singles", 0)
+                            + stats.get("bulk_sampled_doubles", 0),
         rule="every evaluation = one native bit pattern (or literal) pushed through the CURRENT C code and checked "
              "against the property statement itself (bit-exact round trip through the portable bytes, "
              "dissemble;assemble identity, run-time pair identity, class preserved, folder bits = run-time bits); "
-             "distinct_nontrivial excludes the +0/-0 patterns of the bulk slices",
+             "distinct_nontrivial = distinct non-zero bit patterns in the op stream + size of the union of the exhaustive single slices + number of sampled doubles (64-bit samples, repeats negligible; the two signed zeros are not subtracted from the slices)",
         traces_validated_against_impl=ncmp,
         input_distribution={
             "bulk_patterns_by_class": {c: stats.get("bulk_" + c, 0) for c in ("zero", "sub", "norm", "inf", "nan")},
@@ -1089,11 +1212,15 @@ def run(rep, tier):
         samples=["srt 00000001 -> X=3f6800000000 back=00000001", "srt 80000000 -> X=800000000000 back=80000000",
                  "drt 7ff0000000000001 -> X=7fff0000000000001000 back=7ff0000000000001"],
         model_vs_impl_mismatches=stats.get("model_vs_impl_mismatches", 0),
+        bulk_distinct_singles=stats.get("bulk_distinct_singles", 0),
+        bulk_sampled_doubles=stats.get("bulk_sampled_doubles", 0),
+        bitfield_calls_checked=stats.get("bitfield_calls_checked", 0),
         literals_agree_with_python_strtod=stats.get("literals_agree_with_python_strtod", 0),
         timings_s={"generate": round(t1 - t0, 1), "proof": round(t2 - t1, 1), "correspondence+oracle": round(t3 - t2, 1)},
     )
-    if "e2e_lines_compared" in stats:
-        rep.add_cov(e2e_lines_compared=stats["e2e_lines_compared"])
+    if "e2e_constants_compared" in stats:
+        rep.add_cov(e2e_constants_compared=stats["e2e_constants_compared"],
+                    e2e_literals_found=stats.get("e2e_literals_found", 0))
     rep.assume(
         "Coq extraction (ExtrOcamlBasic only) and ocamlopt are trusted for the correspondence run, not for the theorems",
         "gcc -O0 and harness/xfloat/h.c (memcpy between float objects and bit patterns; xfloat.c is #included so that its macros are probed)",
@@ -1119,6 +1246,17 @@ def replay(path):
         bad = len(p) != 4 or p[0] != p[1] or p[2] != p[3]
         print("literal %r -> %s : %s" % (r["literal"], lines[:1], "VIOLATES" if bad else "ok"))
         return 1 if bad else 0
+    if kind == "e2e":
+        class _R:
+            notes = []
+            def __init__(self):
+                self.v = []
+            def violation(self, what, obj, key=None, no_input=False):
+                self.v.append(what)
+        rr = _R()
+        e2e_constants(rr, "quick", {})
+        print("e2e .ao reload: %s" % ("VIOLATES: " + rr.v[0] if rr.v else "ok " + "; ".join(rr.notes)))
+        return 1 if rr.v else 0
     op = r.get("op")
     if not op:
         print("replay carries no input (%s)" % obj.get("what", "")[:200])
